@@ -773,7 +773,11 @@ class C17(runner.Check):
              "asyncio (an exit at the very instant a timeout is due) are not judged.",
         technique="Lean 4 proof (simulation of a property acceptor, induction over timed histories) + differential "
                   "correspondence under a virtual clock + verified trace monitor")
-    theorems = ()
+    theorems = ('TM.C17_model_accepted', 'TM.C17_fires_iff', 'TM.C17_fired_only_when_due', 'TM.C17_due_must_fire',
+                'TM.C17_once', 'TM.C17_never_after_exit', 'TM.C17_restart_on_reenter', 'TM.C17_models_independent',
+                'TM.C17_typed_reachable', 'TM.C17_internal_keeps_timer', 'TM.C17_reject_missing_handler',
+                'TM.C17_async_started_handler_survives', 'TM.C17_async_error_routed',
+                'TM.C17_unbracketed_counterexample')
     rule = ('random machines with Timeout (Machine, HierarchicalMachine, LockedMachine) or AsyncTimeout (AsyncMachine, '
             'HierarchicalAsyncMachine): 2-4 states (nested up to depth 3, compound states with timeouts of their own), '
             'timeouts 0-5, 1-2 on_timeout callbacks that may trigger an event or raise, 2-3 events incl. reflexive '
@@ -786,8 +790,8 @@ class C17(runner.Check):
                'harness/vclock.py: virtual Timer (replaces transitions.extensions.states.Timer) and virtual-clock event loop',
                'harness/props/c17.py resolve_table: which states an event exits/enters (flat and non-parallel nested)')
 
-    quick = (32, 60)
-    thorough = (96, 400)
+    quick = (32, 250)
+    thorough = (128, 1000)
 
     def explore(self, tier, seed):
         nch, per = self.quick if tier == 'quick' else self.thorough
